@@ -96,6 +96,11 @@ func traverseBottomUp(parent *parser.Expr, current *parser.Expr, transform func(
 		}
 		return transform(parent, current)
 	case *parser.Call:
+		// A function without arguments (time(), pi()) does not depend on any
+		// series, so there is nothing to distribute.
+		if len(node.Args) == 0 {
+			return true
+		}
 		for i := range node.Args {
 			if stop := traverseBottomUp(current, &node.Args[i], transform); stop {
 				return stop
